@@ -151,12 +151,25 @@ class World:
         return r
 
 
+class MemView:
+    """storage[start:]: shares the storage, starts at `start`"""
+
+    def __init__(self, mem, start):
+        self.mem, self.start = mem, start
+
+
 class Mem:
     def __init__(self, world, background, name):
         self.world = world
         self.background = background
         self.name = name
         self.log = []
+
+    def __getitem__(self, key):
+        """storage[start:] as used when a pointer into the storage is formed (kernel arguments)"""
+        if isinstance(key, slice) and key.stop is None and key.step is None:
+            return MemView(self, 0 if key.start is None else key.start)
+        raise TypeError("only storage[start:] is modelled")
 
     def __deepcopy__(self, memo):
         """a byte-for-byte copy of the storage (what serialising the buffer's array gives): same history, no sharing"""
